@@ -54,7 +54,11 @@ package collection
 //@ ghost macro idxInv(c, v) = idxBase(c, v) && idxSp(c, v) && idxVals(c, v) && idxExps(c, v) && idxCnt(c, v)
 //@ ghost macro colInv(c) = idxInv(c, c.objs)
 
+// the two trees of a collection are created by New and never reassigned
+//@ fieldinv collection.Collection.values nonnil
+//@ fieldinv collection.Collection.expires nonnil
 //@ func New
+//@   constructor
 //@   uses btree.keyclass, fn.byValue, fn.byExpires, cmp.byValue.id, cmp.byExpires.id, sum.empty
 //@   ensures [a] result != nil && result.values != nil && result.expires != nil && result.values != result.expires && fresh(result) && result.objs == emptyStrMap()
 //@   ensures [b] keysByID(result.values) 
